@@ -19,6 +19,14 @@ KIND = {"MobileSchedule": "routine", "GenericSchedule": "routine", "StationarySc
         "FollowUpMobileSchedule": "followup"}
 
 
+def _mn(x):
+    """a minute value exactly (never truncated)"""
+    from fractions import Fraction
+
+    f = Fraction(x)
+    return int(f) if f.denominator == 1 else float(f)
+
+
 def _num(x):
     return int(x) if float(x).is_integer() else x
 
@@ -111,6 +119,9 @@ def build(cfg, events):
                     "sites": configured_sites(cfg, m, kind, st)}
             if kind == "stationary":
                 case["_cap_used"] = len(st)
+            dl = cfg.get("daylight")
+            if dl is not None and not float(dl * 60).is_integer():
+                case["scale"] = 8          # minutes are multiples of 1/8 (daylight hours are dyadic)
             out[m] = {"case": case, "static": st, "trace": [], "prev_rep": {x["site"]: None for x in st},
                       "fu": []}
         elif tag == "request":
@@ -149,7 +160,7 @@ def build(cfg, events):
                     outs.append([i, "U", 0, 0 if prev is None else prev[1], 0])
                     continue
                 ev = evs[-1]
-                p0, p1, complete, inprog, visited = int(ev[9]), int(ev[10]), ev[11], ev[12], ev[13]
+                p0, p1, complete, inprog, visited = _mn(ev[9]), _mn(ev[10]), ev[11], ev[12], ev[13]
                 if complete:
                     stt = "C"
                 elif inprog and p1 != p0:
@@ -157,7 +168,7 @@ def build(cfg, events):
                 else:
                     stt = "U"
                 wk = workable.get(id(ev)) if workable is not None else None
-                outs.append([i, stt, p1 - p0, p1, p1 - p0, bool(visited) if wk is None else bool(wk), len(evs),
+                outs.append([i, stt, _mn(p1 - p0), p1, _mn(p1 - p0), bool(visited) if wk is None else bool(wk), len(evs),
                              "code" if wk is None else "cfg"])
             rec["outcomes"] = outs
             # completed surveys as the survey_site wrapper saw them (site, date of the call)
@@ -224,6 +235,70 @@ def stationary_workable_oracle(ctx, cfgkey, m, info):
                                 {"wholerun": cfgkey, "method": m, "day": rec["day"]})
 
 
+def feasible_years_oracle(ctx, cfg, m, case, static, trace, tag):
+    """C06 "equals the required number in every full deployment year when crews are sufficient and weather permits",
+    with feasibility stated from the CONFIGURATION and a generous margin: weather and daylight not considered, the
+    plan dates well-formed, and the burst of requests of one plan date can be worked off by the configured crews in
+    a third of the time to the next plan date (and to Dec 31)"""
+    import math
+    from harness.props import c06
+
+    mc = cfg["methods"][m]
+    if case["kind"] != "routine" or mc.get("is_follow_up"):
+        return
+    why = None
+    if cfg.get("consider_weather"):
+        why = "weather-considered"
+    elif mc.get("consider_daylight"):
+        why = "daylight-considered"
+    crews = case["crews"] if case["crews"] else case.get("_crews_estimate")
+    W, S = mc.get("max_workday", 24) * 60, mc.get("survey_time")
+    T = max(mc.get("t_bw_sites", [0]))
+    dep = [cs for cs in case["sites"] if cs.get("deploy") and cs.get("freq")]
+    if why is None and (not crews or S is None or W <= 2 * T or not dep or any(cs["S"] != S for cs in dep)):
+        why = "crews-or-times-not-derivable"
+    if why is None:
+        exp = c06.expected_static(_Quiet(), case, static)
+        st0 = next(e for e in exp if e["site"] == dep[0]["id"])
+        if not c06.plan_hypothesis(st0) or len(st0["plan"]) != st0["rs"]:
+            why = "plan-dates-outside-the-deployment-months(F15)"
+    if why is not None:
+        ctx.count("skip:feasible-clause:" + why)
+        return
+    visits = 1 if S + 2 * T <= W else math.ceil(S / (W - 2 * T))
+    burst = math.ceil(len(dep) * (S + 2 * T * visits) / (crews * W)) + visits
+    first, last = date(*cfg["start"]), date(*cfg["end"])
+    done = {}
+    for rec in trace:
+        for i, cd in rec.get("completed_reports") or []:
+            done[(i, cd[0])] = done.get((i, cd[0]), 0) + 1
+    for y in st0["dep_years"]:
+        if not (first <= date(y, 1, 1) and date(y, 12, 31) <= last):
+            continue
+        pds = [date(y, p[0], p[1]) for p in st0["plan"]] + [date(y, 12, 31)]
+        gap = min((b - a).days for a, b in zip(pds, pds[1:]))
+        if 3 * burst + 2 > gap:
+            ctx.count("skip:feasible-clause:margin-too-small")
+            continue
+        ctx.count("feasible_years_checked_from_configuration")
+        for cs in dep:
+            got = done.get((cs["id"], y), 0)
+            if got != cs["freq"]:
+                ctx.violate("C06:wholerun:feasible:count-not-reached",
+                            f"method {m} site {cs['id']}: {got} of {cs['freq']} surveys completed in full deployment year "
+                            f"{y}; {crews} crews x {W} min/day, {len(dep)} sites x {S}+2x{T} min, plan {st0['plan']}, no "
+                            f"weather (a burst needs about {burst} days, the tightest gap is {gap})",
+                            {"wholerun": tag, "case": {"wholerun": tag}})
+                return
+
+
+class _Quiet:
+    """expected_static is used for its return value only here"""
+
+    def violate(self, *a, **k):
+        pass
+
+
 def analyse(ctx, prop, cfg, res, oracle):
     """conformance + oracles for every schedule of every (program, simulation)"""
     key = {"seed_cfg": cfg.get("_verif_seed"), "ndays": res.ndays}
@@ -280,6 +355,19 @@ def analyse(ctx, prop, cfg, res, oracle):
                                     f"method {m}: crew_count {want} configured (documented estimate {est}), the schedule "
                                     f"was built with {used} crews",
                                     {"wholerun": tag["wholerun"], "case": {"wholerun": tag["wholerun"]}})
+                # daily surveys per crew: documented ceil(workday / (survey + mean travel)), from the configuration
+                if not mcfg.get("is_follow_up") and expect is not None and configured_crews(cfg, m)[1] is not None:
+                    import math
+                    tb = mcfg.get("t_bw_sites", [0])
+                    cap_doc = math.ceil(mcfg.get("max_workday", 24) * 60 / (mcfg["survey_time"] + sum(tb) / len(tb)))
+                    case["_cap_method"], case["_cap_documented"] = case["_cap_used"], cap_doc
+                    if case["_cap_used"] != cap_doc:
+                        ctx.violate(prop + ":wholerun:daily-surveys-per-crew-differ-from-documented",
+                                    f"method {m}: max_workday {mcfg.get('max_workday')} h, survey_time {mcfg['survey_time']}, "
+                                    f"time_between_sites {tb}: documented ceil = {cap_doc}, the schedule was built with "
+                                    f"{case['_cap_used']} surveys per crew and day",
+                                    {"wholerun": tag["wholerun"], "case": {"wholerun": tag["wholerun"]}})
+                    case["cap"] = cap_doc                      # model and oracle use the documented capacity
                 for cs in case["sites"]:
                     if "S_planner" in cs and cs["S_planner"] != cs["S"]:
                         ctx.count("skip:survey-time-of-site-differs-from-method-survey_time")
@@ -321,6 +409,13 @@ def analyse(ctx, prop, cfg, res, oracle):
             continue
         if case["kind"] == "stationary" and prop == "C06":
             stationary_workable_oracle(ctx, case["wholerun"], m, info)
+        if prop == "C06":
+            try:
+                feasible_years_oracle(ctx, cfg, m, case, static, trace, case["wholerun"])
+            except Exception as e:
+                import traceback
+                ctx.broke(f"C06: feasible-years clause could not be evaluated ({type(e).__name__})",
+                          str(case.get("wholerun")) + "\n" + traceback.format_exc()[-1000:])
         if any(r["issued"] for r in trace):
             ctx.nontrivial.add(("wholerun", case["kind"], len(static), case["crews"], case["_cap_used"],
                                 tuple(sorted({(s["rs"], len(s["months"])) for s in static})),
@@ -335,10 +430,18 @@ def make_cfg(seed, wide=None):
     from harness import wholerun as W
 
     rng = random.Random(seed)
-    kw = {"wide": wide} if wide else {}
+    kw = {"wide": wide} if (wide and wide != "daylight") else {}
     cfg = W.make_config(rng, ndays=rng.choice([150, 250, 400, 500]), n_sites=rng.randint(4, 9), **kw)
     cfg["_verif_seed"], cfg["_verif_wide"] = seed, wide
     deploy_columns(rng, cfg)       # deployment flags through the real intake, from both input files
+    if wide == "daylight":
+        # fractional daylight hours (fractional minutes of a workday) with surveys that take more than one day
+        cfg["daylight"] = rng.choice([7.625, 6.8125, 5.375])
+        for m, mc in cfg["methods"].items():
+            if mc.get("deployment_type") == "mobile" and mc.get("measurement_scale") == "component":
+                mc["consider_daylight"] = True
+                mc["survey_time"] = rng.choice([600, 900, 500])
+        cfg["wide_applied"] = [{"tag": "daylight", "path": ["c", "daylight"], "value": cfg["daylight"]}]
     return cfg
 
 
@@ -554,7 +657,7 @@ def run_c07(ctx):
 
     orc = lambda c, case, static, trace: c07.oracle_trace(c, case, trace, static=static)  # noqa: E731
     wl = wide_list(ctx)
-    cfgs = configs(ctx, ctx.pick(1, 8)) + configs(ctx, len(wl), wl)
+    cfgs = configs(ctx, ctx.pick(0, 8)) + configs(ctx, len(wl), wl) + configs(ctx, ctx.pick(1, 2), "daylight")
     ctx.count("wholerun_wide_configs", len(wl))
     jobs = history_jobs(ctx, ctx.pick(1, 2))
     with concurrent.futures.ThreadPoolExecutor(max_workers=2) as ex:
